@@ -200,6 +200,14 @@ def sh_merge(ctx, out, bodies, rule="SH.merge", floor_entries=5):
             a0 = _arg0_ty(t)
             d = t.get("def") or ""
             self_ty = t.get("self_ty") or ""
+            # a diagnostics map *built* by collecting (file, diagnostics) pairs keeps only the last pair of a
+            # file: merging several producers' results that way loses every earlier one
+            if re.search(r"Iterator::(collect|try_collect)$|FromIterator(<.*>)?>?::from_iter$|Itertools::try_collect$", d) and re.match(r"(std::result::Result<|std::option::Option<)?std::collections::HashMap<std::path::PathBuf, std::vec::Vec<blockwatch::validators::Violation>", t.get("dest_ty") or "") \
+                    and not re.search(r"std::collections::hash_map::(IntoIter|Iter|Drain)<std::path::PathBuf", a0):
+                key = "%s|%s|collect" % (rule, b.id)
+                out.viol(rule, key, ctx.where(b, t["span"]),
+                         "a diagnostics map (PathBuf -> Vec<Violation>) is built by `collect()` from (file, diagnostics) pairs: when two producers report the same file, the later pair replaces the earlier one instead of being appended to it")
+                continue
             if not (VIOL_MAP.search(a0) or (("Extend" in d) and VIOL_MAP.search(self_ty))):
                 continue
             if re.search(r"HashMap::<K, V, S, A>::entry$", d):
@@ -333,6 +341,63 @@ def _sh_state(ctx, out, name, rule, bodies):
                          "variable `%s` (%s) is initialised outside the per-%s loop of the `%s` validator and mutated inside it: state is carried from one block to the next, so a block's verdict depends on the blocks before it"
                          % (nm, loc["ty"], "file" if kind == "files" else "block", name))
     out.inst(rule + "." + name, found, 2, samples, note="per-file and per-block loops of the validator examined for carried state")
+
+
+def check_scan_state(ctx, out, rule):
+    """Per-file isolation of the scan: in the function(s) that call the file parser in a loop (the walk
+    over the repository, the loop over the diff's files), the only variables that are initialised outside
+    such a loop and changed inside it are the result map, the diff map entries are taken from, and
+    iterator state. Anything else - a `line_changes` buffer hoisted out of the loop, say - carries one
+    file's data into the parsing of the next file whenever some path skips its reset, and which file is
+    "next" depends on the directory order."""
+    from rules.C12 import file_parser
+    fp = file_parser(ctx)
+    n = 0
+    if fp is None:
+        out.inst(rule, 0, 1, note="file parser not found")
+        return
+    for b0 in ctx.reachable_bodies():
+        if b0.promoted is not None or not any((t.get("res") or "") == fp.id for bi, t in b0.calls()):
+            continue
+        body = b0
+        cfg = cfg_of(body)
+        sites = [bi for bi, t in body.calls() if (t.get("res") or "") == fp.id]
+        for h, blocks in cfg.loops().items():
+            bset = set(blocks)
+            if not any(s in bset for s in sites):
+                continue
+            n += 1
+            changed = {}
+            for x in blocks:
+                blk = body.blocks[x]
+                for s in blk["stmts"]:
+                    if s["k"] == "assign":
+                        changed.setdefault(s["lhs"]["l"], s.get("span"))
+                        if s["rv"]["k"] == "ref" and s["rv"].get("mut"):
+                            changed.setdefault(s["rv"]["place"]["l"], s.get("span"))
+                tt = blk["term"]
+                if tt and tt["k"] == "call":
+                    changed.setdefault(tt["dest"]["l"], tt.get("span"))
+            for l, span in sorted(changed.items()):
+                loc = body.locals[l]
+                if not loc.get("user") or not loc.get("name") or l <= body.argc:
+                    continue
+                if not any(d[1] not in bset for d in body.defs().get(l, [])):
+                    continue
+                ty = loc.get("ty") or ""
+                if re.search(r"HashMap<std::path::PathBuf, blockwatch::blocks::FileBlocks", ty):
+                    continue        # the result
+                a = ctx.facts.adts.get(re.sub(r"<.*$", "", ty))
+                if a is not None and a.get("kind") == "struct" and any(re.search(r"HashMap<std::path::PathBuf, blockwatch::blocks::FileBlocks", f["ty"]) for f in a["variants"][0]["fields"]) \
+                        and all(re.search(r"HashMap<std::path::PathBuf, blockwatch::blocks::FileBlocks", f["ty"]) or f["ty"].startswith("&") for f in a["variants"][0]["fields"]):
+                    continue        # a collector around the result (its other fields are shared references)
+                if re.search(r"::Iter<|::IterMut<|::IntoIter<|std::iter::|ignore::Walk|impl std::iter::Iterator|::Drain<", ty):
+                    continue        # iterator state of the loop itself
+                if not (CONTAINERish.search(ty) or loc.get("mut")):
+                    continue
+                out.viol(rule, "%s|%s|%s" % (rule, b0.id, loc["name"]), ctx.where(body, span),
+                         "variable `%s` (%s) is initialised outside the loop that parses one file per iteration and changed inside it: what it holds after one file is still there when the next file is parsed on every path that skips its reset - the blocks of a file can then be judged with another file's data, depending on the order in which the files come" % (loc["name"], ty))
+    out.inst(rule, n, 0, note="loops that call the file parser once per file, examined for carried state")
 
 
 # -------------------------------------------------------------------------------------------------
